@@ -645,3 +645,35 @@ Qed.
 (* the errno lemma for the refers-bound check needs refers of the unmarked packet *)
 Lemma refers_unmarked p : refers (unmarked p) = refers p.
 Proof. reflexivity. Qed.
+
+(* ---- what must not change ------------------------------------------------------------------- *)
+Lemma set_errno_frame e p : 0 <= flg p < 256 ->
+  cmd (set_errno e p) = cmd p /\ seq (set_errno e p) = seq p /\ typ (set_errno e p) = typ p /\
+  node (set_errno e p) = node p /\ refers (set_errno e p) = refers p /\ endpoint (set_errno e p) = endpoint p /\
+  Z.land (flg (set_errno e p)) (255 - root_PFlagError) = Z.land (flg p) (255 - root_PFlagError).
+Proof.
+  intros Hf. unfold set_errno. cbn [with_body with_flag cmd seq typ node refers endpoint flg].
+  repeat (split; [reflexivity|]). unfold root_PFlagError. change (255 - 16) with 239. apply Z.eqb_eq.
+  apply (sweep256 (fun g => Z.land (Z.lor g 16) 239 =? Z.land g 239)); [vm_compute; reflexivity|assumption].
+Qed.
+
+(* the flag an encode leaves on the sender's packet differs from the packet's flag in the two
+   marks only *)
+Lemma marshal_flag_frame c thr enc p : 0 <= flg p < 256 ->
+  unmark (fst (marshal_body c thr enc p)) = unmark (flg p).
+Proof.
+  intros Hf. unfold marshal_body. cbv zeta. unfold root_PFlagCompressed, root_PFlagEncrypted.
+  pose proof (unmark_clean _ Hf) as Hcl. set (g := unmark (flg p)) in *.
+  assert (H1 : unmark (Z.lor g 1) = g) by (rewrite unmark_252; apply Z.eqb_eq; by_sweep (fun g => Z.land (Z.lor g 1) 252 =? g)).
+  assert (H2 : unmark (Z.lor g 2) = g) by (rewrite unmark_252; apply Z.eqb_eq; by_sweep (fun g => Z.land (Z.lor g 2) 252 =? g)).
+  assert (H3 : unmark (Z.lor (Z.lor g 1) 2) = g) by (rewrite unmark_252; apply Z.eqb_eq; by_sweep (fun g => Z.land (Z.lor (Z.lor g 1) 2) 252 =? g)).
+  assert (H0 : unmark g = g) by (apply clean_unmark; assumption).
+  destruct ((0 <? thr) && _); destruct (negb _ && enc); cbn [fst]; assumption.
+Qed.
+
+Lemma clone_wire c thr enc dec p :
+  wire_v1 c thr enc dec (clone p) = wire_v1 c thr enc dec p /\
+  wire_v2 c thr enc dec (clone p) = wire_v2 c thr enc dec p /\
+  cmd (clone p) = cmd p /\ seq (clone p) = seq p /\ typ (clone p) = typ p /\ flg (clone p) = flg p /\
+  node (clone p) = node p /\ pbody (clone p) = pbody p /\ refers (clone p) = refers p /\ endpoint (clone p) = None.
+Proof. repeat split. Qed.
